@@ -178,11 +178,18 @@ def drive(case):
             if op == "n":
                 for k in step[1]:
                     vv = [float(t) for t in case["designs"][k]["vec"]]
-                    if (k + len(case["designs"])) % 5 == 3:
+                    twin = next((j for j in range(k) if case["designs"][j]["vec"] == case["designs"][k]["vec"]
+                                 and j < len(problem.v_objs) and isinstance(problem.v_objs[j].vector, list)), None)
+                    share = twin is not None and k % 2 == 1
+                    if not share and (k + len(case["designs"])) % 5 == 3:
                         # a float ndarray as the design vector (what CMA-ES / CEM hand to evaluate)
                         import numpy as np
                         vv = np.array(vv)
                     ind = Individual(vv)
+                    if share:
+                        # two design objects holding one and the same vector object (what Individual.sync does: it assigns
+                        # the other individual's vector): whatever happens to one design must not change the other's vector
+                        ind.vector = problem.v_objs[twin].vector
                     ind.features["precision"] = case["designs"][k]["prec"]
                     if problem.v_register(ind) != k:
                         raise InfraError("harness: design keys out of order")
